@@ -671,6 +671,22 @@ def parse_and_compare(rec, cell, want, key, what, fn, args):
     if sl.remaining_bits or sl.remaining_refs:
         rec.violation(f'{key}:left', f'{what}: parser left {sl.remaining_bits} bits / {sl.remaining_refs} refs unread', fn, args)
         return False
+    # the parsed values are stack values too: they serialise (the caller need not rebuild them) to the same logical stack, twice.
+    # Continuations are left out: the parser returns their control data in another Python representation than the serialiser
+    # takes (DESIGN.md Section 7a, finding 22 - compared by content above, re-serialisation not asserted)
+    if 'cont' not in repr(want):
+        try:
+            rec.trans(2)
+            r1 = VmStack.serialize(back)
+            r2 = VmStack.serialize(back)
+            again = tuple(lv_ref(x, []) for x in ref_decode_stack(from_lib(r1)))
+        except Exception as e:
+            rec.violation(f'{key}:reserialize-raises', f'{what}: the values returned by VmStack.deserialize cannot be serialised again: {exc_name(e)}: {e}', fn, args)
+            return False
+        rec.covered('reserialize-parsed')
+        if again != want or r1.hash != r2.hash:
+            rec.violation(f'{key}:reserialize-value', f'{what}: the values returned by VmStack.deserialize serialise to another stack ({str(again)[:200]}) or differently the second time', fn, args)
+            return False
     return True
 
 
